@@ -37,6 +37,7 @@ EXPLANATION = (
     "reachable from that try block is either proved safe from the regular expression that produced its argument or enclosed "
     "in a handler of its own. (ONCE) = C06-PURE seen from this side: no text accessor writes into the stored text pieces, so "
     "a second get_full_text() cannot return more than the first. (BYTES) the bytes that become text: MIME parts are recovered through get_payload(decode=True) (the str of decode=False, in which the email package has already replaced non-ASCII bytes, may be re-encoded only in the quoted-printable / base64 branches); nothing between the MIME part and read_html re-encodes the bytes (read_html sniffs <meta charset> itself); the charset detector of the plain-text reader is given the whole input and the detected branch returns the detector's own decoding; after feed() the buffer html.parser still holds is delivered (C17-EOF guards how); every branch that recognises a byte order mark removes exactly its bytes. (TRIM) = C13-TRIM."
+    " (BREAK) inline break elements put white space between the words on their two sides: DOCX w:tab / w:br / w:cr inside a run, PPTX a:br, and <br> / block-level descendants in the node text the HTML reader uses for cells, headings and link texts. (BYTES k-n, RTF) \\'xx bytes are decoded with the \\ansicpg code page at every call site, every \\uN escape skips its \\ucN fallback characters, the skip state of the stripper is entered only when it is off; the branch that takes every control word starting with 'u' for a Unicode escape is an open known finding."
 )
 NOT_DECIDED = [
     "relative order of the pieces and whitespace separation (value level)",
@@ -52,7 +53,7 @@ TRUSTED = [
     "value conditions inside walkers are taken as 'leaf present and non-empty'; flags at their defaults",
     "int() of a \\d+ group is taken as total (the 4300-digit limit of CPython is outside the document model)",
 ]
-FLOORS = {"C02-WALK": 150, "C02-EXCL": 30, "C02-SINK": 6, "C02-FALLBACK": 20, "C02-BYTES": 24, "C02-REPEAT": 2, "C02-DATA": 2, "C02-ONCE": 100, "C02-TRIM": 8, "C02-BREAK": 8}
+FLOORS = {"C02-WALK": 150, "C02-EXCL": 30, "C02-SINK": 6, "C02-FALLBACK": 20, "C02-BYTES": 24, "C02-REPEAT": 2, "C02-DATA": 2, "C02-ONCE": 100, "C02-TRIM": 8, "C02-BREAK": 8, "C02-ALT": 2}
 
 # ------------------------------------------------------------------------------------------------ WALK
 
@@ -1403,4 +1404,73 @@ def rule_break(ctx: Ctx) -> RuleReport:
     return rep
 
 
-RULES = [rule_walk, rule_excl, rule_sink, rule_fallback, rule_bytes, rule_repeat, rule_data, rule_once, rule_trim, rule_break]
+# ----------------------------------------------------------------------------------------------- ALT
+def rule_alt(ctx: Ctx) -> RuleReport:
+    """mc:AlternateContent (ECMA-376 part 3) holds one content twice: mc:Choice for consumers that know the named extension, mc:Fallback
+    for the others. A descendant iteration over the shape tree crosses both; it must leave out what lies under an mc:Fallback."""
+    rep = RuleReport("C02-ALT", "the shape collection of the PPTX slide reader iterates the shape tree with a filter that leaves out the descendants of mc:Fallback "
+                     "(taken only when the mc:Choice holds no shape): the two renderings of one content are never both emitted")
+    PPTX_ = X + "ms_modern/pptx_extractor.py"
+    pm = ctx.p.module(PPTX_)
+    fi = ctx.p.func(PPTX_, "_process_slide_from_context")
+    rep.unit(fi.key)
+    shape_names = {"sp", "pic", "graphicFrame"}
+    # sets filled from the descendants of mc:Fallback elements
+    fb_loops = [l for l in ast.walk(fi.node) if isinstance(l, ast.For) and isinstance(l.iter, ast.Call) and any(isinstance(a, ast.Name) and str(ctx.folder.fold(pm, a)).endswith("}Fallback") for a in l.iter.args)]
+    excluded: set[str] = set()
+    for l in fb_loops:
+        for c in ast.walk(l):
+            if isinstance(c, ast.Call) and isinstance(c.func, ast.Attribute) and c.func.attr in ("update", "add") and isinstance(c.func.value, ast.Name) and any(isinstance(x, ast.Call) and isinstance(x.func, ast.Attribute) and x.func.attr == "iter" for x in ast.walk(c)):
+                excluded.add(c.func.value.id)
+    # the variable that holds the shape tree
+    trees = {a.targets[0].id for a in walk_own(fi.node) if isinstance(a, ast.Assign) and len(a.targets) == 1 and isinstance(a.targets[0], ast.Name)
+             and any(isinstance(x, ast.Name) and str(ctx.folder.fold(pm, x)).endswith("}spTree") for x in ast.walk(a.value))}
+    if not trees:
+        raise AnalysisError("C02-ALT: the shape tree variable of _process_slide_from_context was not found")
+
+    def _excluding(test, tv) -> bool:
+        """test (or one conjunct of it) is `id(tv) not in S` / `tv not in S` with S a set of Fallback descendants"""
+        parts = test.values if isinstance(test, ast.BoolOp) and isinstance(test.op, ast.And) else [test]
+        return any(isinstance(t, ast.Compare) and len(t.ops) == 1 and isinstance(t.ops[0], ast.NotIn) and isinstance(t.comparators[0], ast.Name) and t.comparators[0].id in excluded
+                   and tv in {x.id for x in ast.walk(t.left) if isinstance(x, ast.Name)} for t in parts)
+
+    n = 0
+    for l in [x for x in walk_own(fi.node) if isinstance(x, ast.For)]:
+        it = l.iter
+        if not (isinstance(it, ast.Call) and isinstance(it.func, ast.Attribute) and it.func.attr == "iter" and isinstance(it.func.value, ast.Name) and it.func.value.id in trees):
+            continue
+        tag = ctx.folder.fold(pm, it.args[0]) if it.args else None
+        if isinstance(tag, str) and tag.rsplit("}", 1)[-1] in ("AlternateContent", "Fallback", "Choice"):
+            continue  # the scan that builds the exclusion set
+        n += 1
+        tv = l.target.id if isinstance(l.target, ast.Name) else ""
+        # every statement that keeps the element (append / add / store) is under the exclusion test, or an early `continue` on membership precedes it
+        guarded = True
+        for st in l.body:
+            if isinstance(st, ast.If) and not st.orelse:
+                t = st.test
+                skip = isinstance(t, ast.Compare) and len(t.ops) == 1 and isinstance(t.ops[0], ast.In) and isinstance(t.comparators[0], ast.Name) and t.comparators[0].id in excluded and st.body and isinstance(st.body[-1], ast.Continue)
+                if skip:
+                    break
+                if _excluding(t, tv):
+                    continue
+            keeps = any(isinstance(c, ast.Call) and isinstance(c.func, ast.Attribute) and c.func.attr in ("append", "add", "extend") for c in ast.walk(st))
+            if keeps:
+                guarded = False
+                break
+        if guarded:
+            rep.ok({"shape_iteration": short(it, 40), "filtered_by": sorted(excluded)})
+        else:
+            rep.fail(Finding("C02-ALT", PPTX_, fi.qual, f"{anorm(it, fi.node)} crosses mc:Fallback", f"`{short(it, 40)}` visits every descendant of the shape tree, also the shapes inside mc:Fallback, without leaving them out: when PowerPoint stores a shape as mc:AlternateContent (equations, ink, newer charts) its text is emitted twice", line=l.lineno))
+    if n < 1:
+        raise AnalysisError("C02-ALT: no descendant iteration over the shape tree found in _process_slide_from_context")
+    # the Fallback is the content when the Choice has no shape: the exclusion is conditional on the Choice holding one
+    cond = [i for l in ast.walk(fi.node) if isinstance(l, ast.For) for i in l.body if isinstance(i, ast.If) and any(x in fb_loops for x in ast.walk(i))]
+    if fb_loops and cond:
+        rep.ok({"fallback_kept_when": "the mc:Choice holds no shape", "test": short(cond[0].test, 80)})
+    elif fb_loops:
+        rep.fail(Finding("C02-ALT", PPTX_, fi.qual, "mc:Fallback always left out", "the descendants of mc:Fallback are left out unconditionally: when the mc:Choice holds something the reader does not collect (ink, media) the Fallback rendering is the only text and picture there is", line=fb_loops[0].lineno))
+    return rep
+
+
+RULES = [rule_walk, rule_excl, rule_sink, rule_fallback, rule_bytes, rule_repeat, rule_data, rule_once, rule_trim, rule_break, rule_alt]
